@@ -187,4 +187,61 @@ theorem out_of_sequence_closed (c : Crypto PK) (cfg : Config) (s : PeerSt) (m : 
 example : (run toy toyCfg (onPeer true).1 [.signatureRequest [5] (toySig 5 [])]).closed = true := by
   decide
 
+/-! ### failing branches
+
+`handleSignatureRequest` calls `p.setID(id)` *before* it looks at the error, so on the branch
+"signature does not verify" (and "selfAddress") the peer object carries the id derived from
+the CLAIMED, unverified public key.  The next three theorems say what that can and cannot do. -/
+
+/-- exact outcome of an in-sequence `SignatureRequest` on the accepting side, branch by branch:
+    unparsable key / signature → closed, not handed, id nil; signature does not verify →
+    closed, not handed, id = id of the claimed key (the `setID` before the check); verifies but id
+    is the node's own → closed, not handed; only the last branch hands the peer over. -/
+theorem failing_branch_closed (c : Crypto PK) (cfg : Config) (s : PeerSt) (pub sig : Bytes)
+    (hcl : s.closed = false) (hn : s.handed = false) (hw : s.wait = some (.sigReq, false)) :
+    let r := (onPacket c cfg s (.signatureRequest pub sig)).1
+    match verifySignature c pub sig (s.extra.getD []) with
+    | .badKey => r.closed = true ∧ r.handed = false ∧ r.id = none
+    | .badSig => r.closed = true ∧ r.handed = false ∧ r.id = none
+    | .invalid id => r.closed = true ∧ r.handed = false ∧ r.id = some id
+    | .ok id => if id = cfg.self then r.closed = true ∧ r.handed = false ∧ r.id = some id
+                else r.closed = false ∧ r.handed = true ∧ r.id = some id :=
+  Proofs.sigreq_outcome c cfg s pub sig hcl hn hw
+
+example : (run toy toyCfg (onPeer true).1
+    [.secureRequest [1] [] [7], .signatureRequest [5] (toySig 5 [8])]).id = some [5] ∧
+    (run toy toyCfg (onPeer true).1
+    [.secureRequest [1] [] [7], .signatureRequest [5] (toySig 5 [8])]).closed = true := by decide
+
+/-- along any session (either side, any messages): whenever the peer object carries an id, it is
+    either handed over (then `identity_only_if_verified` applies) or closed — never both.  So an
+    id taken from an unverified key exists only on a closed peer object. -/
+theorem id_only_on_verified_or_closed (c : Crypto PK) (cfg : Config) (inbound : Bool)
+    (ms : List Msg) :
+    ((run c cfg (onPeer inbound).1 ms).id.isSome = true →
+        (run c cfg (onPeer inbound).1 ms).closed = true ∨
+        (run c cfg (onPeer inbound).1 ms).handed = true) ∧
+    ¬ ((run c cfg (onPeer inbound).1 ms).closed = true ∧
+       (run c cfg (onPeer inbound).1 ms).handed = true) :=
+  idInv_run c cfg ms _ (idInv_onPeer inbound)
+
+/-- a peer closed on any failing branch is never handed to the next handler, whatever arrives
+    afterwards (`ms'`), and keeps its state. -/
+theorem closed_never_handed (c : Crypto PK) (cfg : Config) (inbound : Bool) (ms ms' : List Msg)
+    (h : (run c cfg (onPeer inbound).1 ms).closed = true) :
+    run c cfg (onPeer inbound).1 (ms ++ ms') = run c cfg (onPeer inbound).1 ms ∧
+    (run c cfg (onPeer inbound).1 (ms ++ ms')).handed = false := by
+  have e : run c cfg (onPeer inbound).1 (ms ++ ms') = run c cfg (onPeer inbound).1 ms := by
+    rw [run_append]; exact run_closed_stays c cfg ms' _ h
+  refine ⟨e, ?_⟩
+  rw [e]
+  have := (id_only_on_verified_or_closed c cfg inbound ms).2
+  cases hh : (run c cfg (onPeer inbound).1 ms).handed with
+  | false => rfl
+  | true => exact absurd ⟨h, hh⟩ this
+
+example : (run toy toyCfg (onPeer true).1
+    ([.secureRequest [1] [] [7], .signatureRequest [5] (toySig 5 [8])] ++
+     [.signatureRequest [5] (toySig 5 [7])])).handed = false := by decide
+
 end Goloop.C32
